@@ -100,6 +100,10 @@ struct Case {
     stag: bool, cause2: Cause,
     /// two servers built the same way share the one peer registry; odd-numbered connections go to the second
     two: bool,
+    /// the shared token is cancelled before the first connection is accepted (phase hooks, cause cancel)
+    early: bool,
+    /// every alias action also (re-)points a key shared by all connections at this peer
+    shk: bool,
 }
 impl Case {
     /// the cause that ends the connections that end together (all of them, or the survivors)
@@ -137,6 +141,8 @@ fn parse_case(line: &str) -> Option<Case> {
         stag: f.get("stag").map(|s| s == "1").unwrap_or(false),
         cause2: match f.get("cause2").map(|s| s.as_str()) { None | Some("-") => Cause::Close, Some(s) => parse_cause(s)? },
         two: f.get("two").map(|s| s == "1").unwrap_or(false),
+        early: f.get("early").map(|s| s == "1").unwrap_or(false),
+        shk: f.get("shk").map(|s| s == "1").unwrap_or(false),
     })
 }
 
@@ -156,6 +162,7 @@ struct World {
     recs: Mutex<HashMap<u64, Arc<Rec>>>,
     registry: PeerRegistry,
     phase_hooks: bool,
+    shk: bool,
     flood: u64,
     trigger: AtomicBool,
     release: AtomicBool,
@@ -174,8 +181,15 @@ impl World {
         let s = self.seq.fetch_add(1, SeqCst);
         g.push((s, h));
     }
+    /// the peer's own keys that are attached to it in both views (lookup by key, alias list of the peer)
     fn resolving(&self, id: u64, r: &Rec) -> usize {
-        r.keys.lock().unwrap().iter().filter(|k| self.registry.get_by(k.as_str()).is_some_and(|p| p.peer_id() == PeerId(id))).count()
+        let listed = self.registry.aliases_for(PeerId(id));
+        r.keys.lock().unwrap().iter().filter(|k| self.registry.get_by(k.as_str()).is_some_and(|p| p.peer_id() == PeerId(id)) && listed.contains(k)).count()
+    }
+    /// the peer's own keys that are still attached to it in either view
+    fn lingering(&self, id: u64, r: &Rec) -> usize {
+        let listed = self.registry.aliases_for(PeerId(id));
+        r.keys.lock().unwrap().iter().filter(|k| self.registry.get_by(k.as_str()).is_some_and(|p| p.peer_id() == PeerId(id)) || listed.contains(k)).count()
     }
 }
 
@@ -201,6 +215,8 @@ fn connect_hook(w: &World, i: usize, h: &Hact, peer: &PeerHandle, hs: Option<&Ha
         Hact::Alias(key) => {
             let ks = match hs.and_then(|h| h.query()) { Some(q) => format!("{q}-p{id}-k{key}"), None => format!("p{id}-k{key}") };
             if w.registry.alias(PeerId(id), ks.clone()) { rec.keys.lock().unwrap().push(ks); }
+            // a key that moves from connection to connection (never counted among this peer's own)
+            if w.shk { let _ = w.registry.alias(PeerId(id), format!("shared-k{key}")); }
         }
     }
 }
@@ -215,7 +231,7 @@ fn disconnect_hook(w: &World, j: usize, id: PeerId) {
         while !rec.seen.load(SeqCst) && t0.elapsed() < Duration::from_millis(1500) { std::thread::sleep(Duration::from_millis(1)); }
     }
     let present = w.registry.get(id).is_some();
-    let al = w.resolving(id.0, &rec);
+    let al = if present { w.resolving(id.0, &rec) } else { w.lingering(id.0, &rec) };
     w.push(&rec, Hev::D(j, present, al));
 }
 
@@ -621,11 +637,16 @@ async fn run_async(c: Case) -> Result<String, String> {
     if c.phase == Phase::Hooks && !c.token_cause() { return Err("badcase:hooks-phase-cause".into()); }
     if c.stag && (c.conns < 2 || c.hs != Hs::Ok || c.panic_reached() || !matches!(c.phase, Phase::Idle | Phase::OffR) || matches!(c.cause, Cause::Cancel | Cause::Abort) || c.reqs == 0) { return Err("badcase:staggered".into()); }
     let w = Arc::new(World {
-        seq: AtomicU64::new(0), recs: Mutex::new(HashMap::new()), registry: PeerRegistry::new(), phase_hooks: c.phase == Phase::Hooks, flood: c.flood,
+        seq: AtomicU64::new(0), recs: Mutex::new(HashMap::new()), registry: PeerRegistry::new(), phase_hooks: c.phase == Phase::Hooks, shk: c.shk, flood: c.flood,
         trigger: AtomicBool::new(false), release: AtomicBool::new(false), stop: AtomicBool::new(false),
         sleepers: AtomicUsize::new(0), inline_in: AtomicUsize::new(0), parked: AtomicUsize::new(0), flooded: AtomicUsize::new(0),
     });
     let mut ctl = start_server(&c, &w)?;
+    if c.early {
+        if !(c.phase == Phase::Hooks && c.cause == Cause::Cancel && matches!(c.mode, Mode::ServeConn | Mode::Adopt)) { return Err("badcase:early".into()); }
+        ctl.token.cancel();
+        w.trigger.store(true, SeqCst);
+    }
     let n = c.conns;
     let ndisc = c.dpre + c.dpost;
     let ca = Arc::new(c.clone());
@@ -723,7 +744,7 @@ async fn run_async(c: Case) -> Result<String, String> {
                 let mut evs = r.evs.lock().unwrap().clone();
                 evs.sort_by_key(|(s, _)| *s);
                 let present = w.registry.get(PeerId(*id)).is_some();
-                let al = w.resolving(*id, r);
+                let al = w.lingering(*id, r);
                 let seen = if r.parked.load(SeqCst) { if r.seen.load(SeqCst) { "1" } else { "0" } } else { "na" };
                 (fmt_trace(&evs), format!("{}:{}", present as u8, hx(al as u64)), seen)
             }
@@ -852,6 +873,14 @@ fn gen_cases(seed: u64, thorough: bool) -> Vec<String> {
                 }
             }
         }
+        // the shared token fires before the connection is even accepted: hooks still pair up
+        for mode in ["s", "a"] {
+            for _ in 0..(if thorough { 2 } else { 1 }) {
+                let h = gen_hooks(&mut rng);
+                let ctx = rng.chance(2, 3);
+                out.push(format!("{} early=1", case_line(out.len(), mode, "ok", ctx, &h, "cancel", "hooks", 0, 0, conns_of(&mut rng))));
+            }
+        }
         // two servers built alike share one peer registry (the ids they hand out must not collide,
         // whatever the order in which hooks and registry were attached)
         for k in 0..(if thorough { 6 } else { 3 }) {
@@ -870,6 +899,16 @@ fn gen_cases(seed: u64, thorough: bool) -> Vec<String> {
                 out.push(case_line(out.len(), mode, hs, ctx, &h, "close", "idle", 1, 0, conns_of(&mut rng)));
             }
         }
+    }
+    // in half of the registry cases with an alias action, a shared key moves between the peers
+    let mut r2 = Rng::new(seed ^ 0x5eed_a11a5);
+    for l in out.iter_mut() {
+        if l.contains(" reg=1 ") && !l.contains("two=1") && r2.chance(1, 2) { l.push_str(" shk=1"); }
+    }
+    // directed: several own aliases per peer and a shared key that the later connections take over
+    for (mode, cause, conns) in [("l", "close", 3u64), ("s", "loss", 2), ("a", "close", 4)] {
+        let h = Hooks { pre: vec![Hact::Count], reg: true, post: vec![Hact::Alias(1), Hact::Alias(2)], xh: if mode == "l" { vec![] } else { vec![Hact::Alias(3)] }, dpre: 1, dpost: 1 };
+        out.push(format!("{} shk=1", case_line(out.len(), mode, "ok", mode != "l", &h, cause, "idle", 1, 0, conns)));
     }
     out
 }
